@@ -1,7 +1,7 @@
 //! C16 — ETH airdrop: only the key holder claims, bound to one wallet, within limits.
 //!
 //! World-level correspondence: the real `sg-eth-airdrop` (instantiate → reply → real `whitelist-immutable`),
-//! a real vending minter (created through the real vending factory by the repo's own test template) whose
+//! a real vending minter + sg721 (created through the real vending factory with the repo's own mock parameters) whose
 //! config points to a real `sg-whitelist`, all under cw-multi-test; against `LP.Airdrop` (Lean).
 //! Function-level correspondence: `ethereum_verify::{verify_ethereum_text, decode_address, get_recovery_param}`,
 //! `str::replace`, `str::contains`, `hex::decode`, Keccak-256.
@@ -532,6 +532,35 @@ impl S {
                     None => (line.to_string(), "err".into()),
                 }
             }
+            "q_imm" => {
+                // the whitelist-immutable the reply registered: distinct-address count and per-address limit
+                let w = self.world();
+                match w.airdrop.clone() {
+                    None => (line.to_string(), "err".into()),
+                    Some(a) => {
+                        let raw = w.app.wrap().query_wasm_raw(a, b"cfg".to_vec()).map_err(|e| e.to_string())?.ok_or("no cfg")?;
+                        let cfg: serde_json::Value = serde_json::from_slice(&raw).map_err(|e| e.to_string())?;
+                        let imm = cfg["whitelist_address"].as_str().ok_or("no whitelist_address")?.to_string();
+                        let count: u64 = w.app.wrap().query_wasm_smart(&imm, &whitelist_immutable::msg::QueryMsg::AddressCount {}).map_err(|e| e.to_string())?;
+                        let limit: u32 = w.app.wrap().query_wasm_smart(&imm, &whitelist_immutable::msg::QueryMsg::PerAddressLimit {}).map_err(|e| e.to_string())?;
+                        let distinct = w.listed.len() as u64;
+                        if count != distinct || limit as u64 != w.limit {
+                            finding = bad("immutable-list", format!("whitelist-immutable has {count} addresses / limit {limit}; instantiated with {distinct} distinct / {}", w.limit));
+                        }
+                        (line.to_string(), format!("ok count={count} limit={limit}"))
+                    }
+                }
+            }
+            "q_minter" => {
+                let w = self.world();
+                match w.airdrop.clone() {
+                    None => (line.to_string(), "err".into()),
+                    Some(a) => {
+                        let m: Addr = w.app.wrap().query_wasm_smart(a, &sg_eth_airdrop::msg::QueryMsg::GetMinter {}).map_err(|e| e.to_string())?;
+                        (line.to_string(), format!("ok {}", (m == w.minter) as u8))
+                    }
+                }
+            }
             // ---------------------------------------------------------------- function level
             "repl" => {
                 let tpl = kv_s(line, "tpl").ok_or("tpl")?;
@@ -648,12 +677,32 @@ impl Sut for S {
     }
 }
 
+/// Wildcard-free matches over the message enums the model covers: a new / renamed message kind (say, a way to
+/// withdraw coins or to edit the immutable list) stops this file from compiling instead of going unnoticed.
+#[allow(dead_code)]
+fn message_surface(e: &sg_eth_airdrop::msg::ExecuteMsg, q: &sg_eth_airdrop::msg::QueryMsg) -> (&'static str, &'static str) {
+    use sg_eth_airdrop::msg::{ExecuteMsg as E, QueryMsg as Q};
+    (
+        match e {
+            E::ClaimAirdrop { eth_address: _, eth_sig: _ } => "claim",
+        },
+        match q {
+            Q::AirdropEligible { eth_address: _ } => "q_elig",
+            Q::GetMinter {} => "q_minter",
+        },
+    )
+}
+/// whitelist-immutable has no execute messages at all: the airdrop's list cannot be edited
+#[allow(dead_code)]
+fn immutable_surface(i: &whitelist_immutable::msg::ExecuteMsg) -> ! {
+    match *i {}
+}
+
 // ------------------------------------------------------------------------------------------------ generators
 
 #[derive(Clone)]
 struct Key {
     sk: SigningKey,
-    addr: [u8; 20],
     /// the string under which this key appears in claims (casing varies)
     eth: String,
 }
@@ -672,7 +721,8 @@ fn new_key(rng: &mut Rng, style: u64) -> Key {
                 1 => format!("0x{}", lower.chars().enumerate().map(|(i, c)| if i % 3 == 0 { c.to_ascii_uppercase() } else { c }).collect::<String>()),
                 _ => format!("0x{lower}"),
             };
-            return Key { sk, addr, eth };
+            let _ = addr;
+            return Key { sk, eth };
         }
     }
 }
@@ -812,7 +862,7 @@ fn gen_claim(rng: &mut Rng, sc: &Scn, kind: u64, ki: usize, wi: usize) -> (Strin
         }
         13 => {
             // malformed variants of the address string (some of them are put on the list by the scenario)
-            let e = malformed_eth(&k.eth, rng.below(5));
+            let e = malformed_eth(&k.eth, rng.below(6));
             (claim_line(w, &e, &h(&good)), "malformed-address")
         }
         14 => {
@@ -844,6 +894,7 @@ fn malformed_eth(eth: &str, which: u64) -> String {
             s.replace_range(10..11, "g");
             s
         }
+        4 => format!("0X{}", &eth[2..]),
         _ => {
             // 42 bytes with a two-byte UTF-8 character
             let mut s = eth[..40].to_string();
@@ -853,27 +904,45 @@ fn malformed_eth(eth: &str, which: u64) -> String {
     }
 }
 
+/// the state class a claim for `eth` meets (harness-side observations only): listed? below the limit?
+/// collection whitelist: none / airdrop contract not an admin / full / open; contract solvent?
 fn state_class(sut: &S, eth: &str) -> String {
     let Some(w) = sut.w.as_ref() else { return "-".into() };
+    let Some(air) = w.airdrop.as_ref() else { return "noinst".into() };
     let c = w.count(eth);
+    let wl = match &w.cwl {
+        None => "nowl",
+        Some(c) => {
+            let admins: Vec<String> = w
+                .app
+                .wrap()
+                .query_wasm_smart::<sg_whitelist::msg::AdminListResponse>(c, &sg_whitelist::msg::QueryMsg::AdminList {})
+                .map(|r| r.admins)
+                .unwrap_or_default();
+            let cfg = w.app.wrap().query_wasm_smart::<sg_whitelist::msg::ConfigResponse>(c, &sg_whitelist::msg::QueryMsg::Config {}).ok();
+            let full = cfg.map(|c| c.num_members >= c.member_limit).unwrap_or(false);
+            if !admins.iter().any(|a| a == air.as_str()) {
+                "notadmin"
+            } else if full {
+                "full"
+            } else {
+                "open"
+            }
+        }
+    };
     format!(
-        "{}{}{}",
+        "{}{}{}{}",
         if w.listed.contains(eth) { "L" } else { "u" },
         if c < w.limit { "<" } else { "=" },
-        if w.cwl.is_none() {
-            "nowl"
-        } else if w.num_members() >= 1_000_000 {
-            "?"
-        } else {
-            "wl"
-        }
+        wl,
+        if w.bal(air.as_str()) >= w.amount { "$" } else { "!" }
     )
 }
 
 fn run_world_case(ses: &mut Session, sut: &mut S, rng: &mut Rng, idx: u64, n_ops: u64) {
     // ---------- scenario
     let wl = !rng.chance(1, 12);
-    let wlimit = *rng.pick(&[1u64, 2, 3, 5, 40, 40, 40]);
+    let wlimit = *rng.pick(&[1u64, 2, 3, 5, 40, 40, 40, 40, 40, 40, 40, 40]);
     let header = format!("case world-{idx} wl={} wlimit={wlimit} admin={}", wl as u8, hxs(CREATOR));
     ses.begin_case(sut, &header);
     let nkeys = rng.range(2, 4) as usize;
@@ -884,7 +953,7 @@ fn run_world_case(ses: &mut Session, sut: &mut S, rng: &mut Rng, idx: u64, n_ops
         })
         .collect();
     let template = if rng.chance(1, 15) { format!("{}{}", "z".repeat(992 - rng.below(3) as usize), "{wallet}") } else { rng.pick(TEMPLATES).to_string() };
-    let limit = *rng.pick(&[0u64, 1, 1, 1, 2, 2, 3]);
+    let limit = *rng.pick(&[0u64, 1, 1, 2, 3, 4, 6, 9, 15]);
     let amount = *rng.pick(&[MIN_AIRDROP, MIN_AIRDROP + 1, 66_000_000, 123_456_789, 1_000_000_000]);
     // the list: most keys, sometimes other casings, malformed entries, duplicates
     let mut list: Vec<String> = vec![];
@@ -896,14 +965,14 @@ fn run_world_case(ses: &mut Session, sut: &mut S, rng: &mut Rng, idx: u64, n_ops
             list.push(format!("0x{}", k.eth[2..].to_lowercase()));
         }
         if rng.chance(1, 4) {
-            list.push(malformed_eth(&k.eth, rng.below(5)));
+            list.push(malformed_eth(&k.eth, rng.below(6)));
         }
         if rng.chance(1, 6) {
             list.push(k.eth.clone());
         }
     }
     rng.shuffle(&mut list);
-    let claims_funded = rng.range(0, 6) as u128;
+    let claims_funded = if rng.chance(1, 4) { rng.range(0, 3) } else { rng.range(3, 30) } as u128;
     let short = if rng.chance(1, 4) { 1 } else { 0 };
     let funding = FEE + (amount * claims_funded).saturating_sub(short);
     let inst_sender = "acct00900";
@@ -952,13 +1021,15 @@ fn run_world_case(ses: &mut Session, sut: &mut S, rng: &mut Rng, idx: u64, n_ops
     }
     let me = sut.w.as_ref().unwrap().airdrop.clone().unwrap().to_string();
     // make the airdrop contract an admin of the collection whitelist (as the repo's test does) — mostly
-    let admin_mode = rng.below(10);
+    let admin_mode = rng.below(14);
     if admin_mode > 0 {
         ses.step(sut, &format!("cwl_admins sender={} admins={}", hxs(CREATOR), hx_list(&[CREATOR.to_string(), me.clone()])));
     }
     for k in &sc.keys {
         ses.step(sut, &format!("q_elig eth={}", hxs(&k.eth)));
     }
+    ses.step(sut, "q_minter");
+    ses.step(sut, "q_imm");
     // ---------- operations
     for _ in 0..n_ops {
         let r = rng.below(100);
@@ -971,6 +1042,9 @@ fn run_world_case(ses: &mut Session, sut: &mut S, rng: &mut Rng, idx: u64, n_ops
             let cls = state_class(sut, &eth);
             let o = ses.step(sut, &l);
             ses.count(&format!("claim-kind:{label}:{}", o.split(' ').next().unwrap_or("")));
+            if kind < 3 {
+                ses.count(&format!("valid-claim-meets:{cls}:{}", o.split(' ').next().unwrap_or("")));
+            }
             ses.mark(format!("claim:{label}:{}:{cls}", o.split(' ').next().unwrap_or("")));
         } else if r < 84 {
             let amt = *rng.pick(&[1u128, sc_amount(sut), sc_amount(sut) - 1, 5 * sc_amount(sut)]);
@@ -986,7 +1060,7 @@ fn run_world_case(ses: &mut Session, sut: &mut S, rng: &mut Rng, idx: u64, n_ops
             let o = ses.step(sut, &format!("cwl_rm sender={} who={}", hxs(CREATOR), hxs(who)));
             ses.mark(format!("cwl_rm:{}", o.split(' ').next().unwrap_or("")));
         } else if r < 97 {
-            let with_me = rng.chance(2, 3);
+            let with_me = rng.chance(5, 6);
             let sender = if rng.chance(5, 6) { CREATOR } else { "buyer" };
             let mut admins = vec![CREATOR.to_string()];
             if with_me {
@@ -996,7 +1070,7 @@ fn run_world_case(ses: &mut Session, sut: &mut S, rng: &mut Rng, idx: u64, n_ops
             ses.mark(format!("cwl_admins:{with_me}:{}", o.split(' ').next().unwrap_or("")));
         } else {
             let k = rng.pick(&sc.keys).clone();
-            let e = if rng.chance(1, 2) { k.eth.clone() } else { malformed_eth(&k.eth, rng.below(5)) };
+            let e = if rng.chance(1, 2) { k.eth.clone() } else { malformed_eth(&k.eth, rng.below(6)) };
             ses.step(sut, &format!("q_elig eth={}", hxs(&e)));
         }
     }
@@ -1009,8 +1083,11 @@ fn sc_amount(sut: &S) -> u128 {
 
 /// a fixed, fully valid deployment: `nkeys` listed keys, airdrop contract is whitelist admin, funded for `funded` claims
 fn std_world(ses: &mut Session, sut: &mut S, rng: &mut Rng, name: &str, template: &str, limit: u64, nkeys: usize, funded: u128, wlimit: u64) -> (Scn, String) {
-    ses.begin_case(sut, &format!("case {name} wl=1 wlimit={wlimit} admin={}", hxs(CREATOR)));
     let keys: Vec<Key> = (0..nkeys).map(|_| new_key(rng, 5)).collect();
+    std_world_with(ses, sut, keys, name, template, limit, funded, wlimit)
+}
+fn std_world_with(ses: &mut Session, sut: &mut S, keys: Vec<Key>, name: &str, template: &str, limit: u64, funded: u128, wlimit: u64) -> (Scn, String) {
+    ses.begin_case(sut, &format!("case {name} wl=1 wlimit={wlimit} admin={}", hxs(CREATOR)));
     let list: Vec<String> = keys.iter().map(|k| k.eth.clone()).collect();
     let amount = 66_000_000u128;
     ses.step(sut, &format!("fund to={} amt={}", hxs("acct00900"), FEE + amount * funded));
@@ -1091,7 +1168,7 @@ fn main() {
     // decode_address
     let k0 = new_key(&mut rng, 5);
     let mut addrs: Vec<String> = vec![k0.eth.clone(), k0.eth.to_uppercase(), format!("0x{}", k0.eth[2..].to_uppercase()), format!("0X{}", &k0.eth[2..]), String::new(), "0x".into()];
-    for i in 0..5 {
+    for i in 0..6 {
         addrs.push(malformed_eth(&k0.eth, i));
     }
     addrs.push(format!("{}  ", &k0.eth[..40]));
@@ -1162,7 +1239,7 @@ fn main() {
         ses.mark(format!("verify:raw-v:{}", o.replace(' ', "")));
         let o = ses.step(&mut sut, &vline(&text, &good, &format!("0x{}", k.eth[2..].to_uppercase())));
         ses.mark(format!("verify:upper-signer:{}", o.replace(' ', "")));
-        for i in 0..5 {
+        for i in 0..6 {
             let o = ses.step(&mut sut, &vline(&text, &good, &malformed_eth(&k.eth, i)));
             ses.mark(format!("verify:malformed-signer{i}:{}", o.replace(' ', "")));
         }
@@ -1224,8 +1301,43 @@ fn main() {
         ses.end_case();
     }
 
-    // ------------------------------------------------------------------ 5. random worlds
-    let n_cases = ses.scale(150, 5_000);
+    // ------------------------------------------------------------------ 5. every order of a small alphabet
+    {
+        let len: u32 = if ses.tier() == Tier::Thorough { 5 } else { 4 };
+        let keys: Vec<Key> = (0..2).map(|_| new_key(&mut rng, 5)).collect();
+        let tpl = "I am {wallet}";
+        let (w0, w1) = ("acct00001", "acct00002");
+        let sg = |k: &Key, w: &str| hex::encode(sign(k, &tpl.replace("{wallet}", w), false));
+        let alphabet: Vec<String> = vec![
+            claim_line(w0, &keys[0].eth, &sg(&keys[0], w0)),
+            claim_line(w1, &keys[0].eth, &sg(&keys[0], w1)),
+            claim_line(w0, &keys[1].eth, &sg(&keys[1], w0)),
+            claim_line(w1, &keys[0].eth, &sg(&keys[0], w0)), // replay of w0's signature by w1
+            claim_line(w1, &keys[1].eth, &sg(&keys[0], w1)), // signed by the other key
+            "FUND".to_string(),
+        ];
+        let n = alphabet.len() as u64;
+        for code in 0..n.pow(len) {
+            let (_sc, me) = std_world_with(&mut ses, &mut sut, keys.clone(), &format!("orders-{code}"), tpl, 1, 2, 40);
+            let mut c = code;
+            let mut pattern = String::new();
+            for _ in 0..len {
+                let i = (c % n) as usize;
+                let l = &alphabet[i];
+                c /= n;
+                let o = if l == "FUND" { ses.step(&mut sut, &format!("fund to={} amt=66000000", hxs(&me))) } else { ses.step(&mut sut, l) };
+                pattern.push_str(&format!("{i}{}", if o.starts_with("ok") { '+' } else { '-' }));
+            }
+            let outcomes: String = pattern.chars().filter(|c| *c == '+' || *c == '-').collect();
+            ses.mark(format!("orders:first{}:{outcomes}", pattern.chars().next().unwrap_or('?')));
+            ses.end_case();
+        }
+        ses.mark(format!("orders:all-sequences-len{len}"));
+        ses.note(format!("every sequence of length {len} over 5 claims (2 keys × 2 wallets, one replay, one wrong key) + funding, limit 1, funded for 2 claims"));
+    }
+
+    // ------------------------------------------------------------------ 6. random worlds
+    let n_cases = ses.scale(500, 8_000);
     for i in 0..n_cases {
         let n_ops = rng.range(10, 60);
         run_world_case(&mut ses, &mut sut, &mut rng, i, n_ops);
